@@ -480,3 +480,14 @@ func CopyTree(src, dst string, keep map[string]bool) error {
 		return os.WriteFile(out, b, 0o644)
 	})
 }
+
+// MustRead returns the bytes of a cache file.
+func MustRead(dir, rel string) []byte {
+	b, err := os.ReadFile(filepath.Join(dir, "test.store", rel))
+	if err != nil {
+		panic(err)
+	}
+	return b
+}
+
+func RemoveDir(dir string) { os.RemoveAll(dir) }
